@@ -236,6 +236,28 @@ func runC04(ctx *Ctx) error {
 				ctx.Res.Violate(sig, fmt.Sprintf("%s %s value %s: %s", pp.FW, s.Desc(), Canon(v.JSON), why),
 					J{"fw": pp.FW, "shape": s.Desc(), "value": v.JSON, "why": why, "detail": detail, "doc": shapesDoc([]PShape{s})})
 			}
+			// content (JSON) and pass-through parameters go through escaping code written per framework in the templates:
+			// every atom class on its own, not only the drawn ones
+			if s.Mode != "schema" && (s.T.Kind == "str" || s.T.Kind == "arrS" || s.T.Kind == "obj") {
+				for _, a := range strAtoms {
+					single := singleAtomValue(s, a)
+					if !transportOK(s.Loc, single) {
+						continue
+					}
+					ctx.Res.Eval(J{"fw": pp.FW, "shape": s.Desc(), "value": single.JSON}, true)
+					ctx.Res.Count("atom-sweep:" + s.Loc + "/" + s.Mode)
+					if ok, why, detail := c04Roundtrip(pp, s, &single); !ok {
+						cls := a.Class
+						tame := tameValue(s)
+						if ok0, why0, det0 := c04Roundtrip(pp, s, &tame); !ok0 {
+							cls, single, why, detail = "any", tame, why0, det0
+						}
+						sig := fmt.Sprintf("roundtrip:%s:%s:%s:%s:%s", pp.FW, s.Loc, s.Mode, shapeKindClass(s), cls)
+						ctx.Res.Violate(sig, fmt.Sprintf("%s %s value %s: %s", pp.FW, s.Desc(), Canon(single.JSON), why),
+							J{"fw": pp.FW, "shape": s.Desc(), "value": single.JSON, "why": why, "detail": detail, "doc": shapesDoc([]PShape{s})})
+					}
+				}
+			}
 			if !s.Required && s.Loc != "path" {
 				ctx.Res.Eval(J{"fw": pp.FW, "shape": s.Desc(), "value": "absent"}, true)
 				ok, why, detail := c04Roundtrip(pp, s, nil)
